@@ -39,6 +39,21 @@ RAW_PLACES = ('toolchain', 'cflags', 'cppflags', 'toolchain_link',
 PROJECT_PLACES = ('global', 'global_link') + RAW_PLACES
 
 
+def def_name(idx, val):
+    return 'VFDD' if val.startswith('dup') else 'VFD%d' % idx
+
+
+# raw flag sequences given as plain strings in one option list: repeated
+# tokens, two-token options, a macro defined twice (order is the user's)
+RAW = {
+    'O3-O0-O3': ['-O3', '-O0', '-O3'],
+    'O0-O3-O0': ['-O0', '-O3', '-O0'],
+    'include2': ['-include', '@SRC@/inc0/vf_inc0.h',
+                 '-include', '@SRC@/inc1/vf_inc1.h'],
+    'D1-D2': ['-DVFR=1', '-DVFR=2'],
+}
+
+
 def site_of(place):
     if place in COMPILE_PLACES:
         return 'compile'
@@ -57,10 +72,13 @@ def ref_flags(item, idx, src):
     c, l, libs = [], [], []
     if site == 'compile':
         if opt == 'define':
-            name = 'VFD%d' % idx
+            name = def_name(idx, val)
             c = {'none': ['-D' + name], 'int': ['-D%s=42' % name],
                  'docstr': ['-D%s=%s' % (name, DOCSTR)],
-                 'empty': ['-D%s=' % name]}[val]
+                 'empty': ['-D%s=' % name], 'dupA': ['-D%s=1' % name],
+                 'dupB': ['-D%s=2' % name]}[val]
+        elif opt == 'raw':
+            c = [x.replace('@SRC@', src) for x in RAW[val]]
         elif opt == 'std':
             c = ['-std=' + val]
         elif opt == 'include':
@@ -142,6 +160,10 @@ def features(items, lang=None):
         site = site_of(place)
         if opt == 'define':
             f.add(('define', idx, val))
+        elif opt == 'raw' and val == 'include2':
+            f.add('finc')
+        elif opt == 'raw' and val == 'D1-D2':
+            f.add('rawd')
         elif opt == 'include':
             f.add(('inc', idx))
         elif opt == 'sysinclude':
@@ -174,7 +196,7 @@ def features(items, lang=None):
     return f
 
 
-AUXABLE = ('DEF', 'STDC', 'CPP', 'STRICT', 'INC', 'SYS', 'OPT', 'OPTSIZE',
+AUXABLE = ('FINC', 'RAWD', 'DEF', 'STDC', 'CPP', 'STRICT', 'INC', 'SYS', 'OPT', 'OPTSIZE',
            'REENTRANT', 'ASAN', 'PCH')
 
 
@@ -197,6 +219,9 @@ def _aspects(item, idx, lang=None):
             return ['AUX_PIC', 'AUX_PIE']
         if lang == 'f95' and opt == 'std':
             return ['fstd']
+        if opt == 'raw':
+            return {'O3-O0-O3': ['OPT'], 'O0-O3-O0': ['OPT'],
+                    'include2': ['FINC0', 'FINC1'], 'D1-D2': ['RAWD']}[val]
         return {
             'define': ['DEF%d' % idx], 'std': ['STDC', 'CPP', 'STRICT'],
             'include': ['INC%d' % idx], 'sysinclude': ['SYS%d' % idx],
@@ -236,7 +261,12 @@ def absolute(item, idx, lang):
         if opt == 'define':
             return {'DEF%d' % idx: eq({'none': '1', 'int': '42',
                                        'docstr': DOCSTR[1:-1],
-                                       'empty': ''}[val])}
+                                       'empty': '', 'dupA': '1',
+                                       'dupB': '2'}[val])}
+        if opt == 'raw':
+            return {'O3-O0-O3': {'OPT': eq('1')}, 'O0-O3-O0': {'OPT': eq('0')},
+                    'include2': {'FINC0': eq('11'), 'FINC1': eq('11')},
+                    'D1-D2': {'RAWD': eq('2')}}[val]
         if opt == 'std' and lang == 'f95':
             return {'fstd': eq([False, 'error'] if val == 'f95'
                                else [True, 'none'])}
@@ -350,7 +380,7 @@ def _probe_table(tag, f, prefix, pchmacro):
           '#else\n  "VFP:%s:%sCPP=none",\n#endif\n' % (tag, prefix, tag, prefix))
     for x in sorted(i for i in f if isinstance(i, tuple)):
         if x[0] == 'define':
-            name = 'VFD%d' % x[1]
+            name = def_name(x[1], x[2])
             shown = name if x[2] == 'docstr' else 'VS(%s)' % name
             m += ('#ifdef %s\n  "VFP:%s:%sDEF%d=" %s,\n#else\n'
                   '  "VFP:%s:%sDEF%d=<undefined>",\n#endif\n'
@@ -361,6 +391,14 @@ def _probe_table(tag, f, prefix, pchmacro):
         elif x[0] == 'sys':
             m += ('  "VFP:%s:%sSYS%d=" VS(VF_SYS%d_MARK),\n'
                   % (tag, prefix, x[1], x[1]))
+    if 'finc' in f:       # headers reachable only through raw `-include`
+        for i in (0, 1):
+            m += ('  "VFP:%s:%sFINC%d=" VS(VF_INC%d_MARK),\n'
+                  % (tag, prefix, i, i))
+    if 'rawd' in f:
+        m += ('#ifdef VFR\n  "VFP:%s:%sRAWD=" VS(VFR),\n#else\n'
+              '  "VFP:%s:%sRAWD=<undefined>",\n#endif\n'
+              % (tag, prefix, tag, prefix))
     if 'pch' in f:
         m += '  "VFP:%s:%sPCH=" VS(%s),\n' % (tag, prefix, pchmacro)
     return m
@@ -534,7 +572,7 @@ def render_fortran(tag, items):
 def static_tree():
     """Files shared by every sub-case of a project."""
     files = {}
-    for i in (0, 1):
+    for i in (0, 1, 2):
         files['inc%d/vf_inc%d.h' % (i, i)] = '#define VF_INC%d_MARK 11\n' % i
         files['sys%d/vf_sys%d.h' % (i, i)] = (
             '#define VF_SYS%d_MARK 12\n'
@@ -652,7 +690,8 @@ def reference_build(refdir, src, tag, lang, compiler, items, flags, env):
         gch = os.path.join(refdir, tag + '_pre.h.gch')
         run([cc, '-x', LANGS[lang]['pchx']] + flags['c'] +
             [os.path.join(src, tag + '_pre.h'), '-o', gch])
-        cflags_main += ['-include', os.path.join(refdir, tag + '_pre.h')]
+        # a precompiled header must be the first thing included
+        cflags_main = ['-include', os.path.join(refdir, tag + '_pre.h')] + cflags_main
     run([cc] + cflags_main + ['-c', main_src, '-o', main_obj])
     objs = [main_obj]
     post = []
@@ -661,12 +700,12 @@ def reference_build(refdir, src, tag, lang, compiler, items, flags, env):
         aux_obj = os.path.join(refdir, tag + '_a.o')
         aux_c = list(flags['c'])
         if 'pch2' in f:
-            aux_c += ['-include', os.path.join(refdir, tag + '_pre.h')]
+            aux_c = ['-include', os.path.join(refdir, tag + '_pre.h')] + aux_c
         if 'pch' in f and 'shlib' in f:
             gch_a = os.path.join(refdir, tag + '_prea.h.gch')
             run([cc, '-x', LANGS[lang]['pchx']] + flags['c'] +
                 [os.path.join(src, tag + '_prea.h'), '-o', gch_a])
-            aux_c += ['-include', os.path.join(refdir, tag + '_prea.h')]
+            aux_c = ['-include', os.path.join(refdir, tag + '_prea.h')] + aux_c
         run([cc] + aux_c + ['-c', os.path.join(src, tag + '_a' + ext),
                             '-o', aux_obj])
         if 'shlib' in f:
